@@ -1053,6 +1053,99 @@ func vfSrvUnknownTypes(rnd *rand.Rand, tn int) []byte {
 	return buf.Bytes()
 }
 
+// vfSrvBlockedReset builds a session for a client that does not read: while the server's writer is
+// blocked a stream error is raised (the RST_STREAM can only be queued, the stream stays in the
+// server's table), then more frames arrive for that stream, then valid traffic on other streams.
+// Causes: every request of the table that is malformed at request level (detected after the stream
+// was created), a self-dependent priority, DATA beyond Content-Length, a stream-level flow-control
+// violation, trailers with a pseudo-header. a is sent while the client may still read, b after.
+func vfSrvBlockedReset(rnd *rand.Rand, tn int) (a, b []byte) {
+	var buf, hb bytes.Buffer
+	fr := NewFramer(&buf, nil)
+	enc := hpack.NewEncoder(&hb)
+	block := func(fields []string) []byte {
+		hb.Reset()
+		for i := 0; i+1 < len(fields); i += 2 {
+			enc.WriteField(hpack.HeaderField{Name: fields[i], Value: fields[i+1]})
+		}
+		return append([]byte(nil), hb.Bytes()...)
+	}
+	path := func(id uint32) string { return "/s" + strconv.Itoa(int(id)) }
+	fr.WriteSettings()
+	id := uint32(1)
+	if rnd.Intn(2) == 0 {
+		fr.WriteHeaders(HeadersFrameParam{StreamID: id, BlockFragment: block(vfSrvBase("GET", path(id))), EndStream: true, EndHeaders: true})
+		id += 2
+	}
+	a = append([]byte(nil), buf.Bytes()...)
+	buf.Reset()
+
+	// something for the server to write first, so that its writer is stuck in a flush
+	if rnd.Intn(2) == 0 {
+		fr.WritePing(false, [8]byte{1, 1, 2, 3, 5, 8, 13, byte(tn)})
+	} else {
+		fr.WriteSettings(Setting{SettingMaxFrameSize, 16384})
+	}
+	var mal []vfSrvCase
+	for _, c := range vfSrvCases {
+		if c.kind == "malS" {
+			mal = append(mal, c)
+		}
+	}
+	for round := 1 + rnd.Intn(2); round > 0; round-- {
+		s := id
+		id += 2
+		cause := rnd.Intn(len(mal) + 5)
+		if tn%2 == 0 {
+			cause = rnd.Intn(len(mal) + 1) // every second scenario: a request-level malformation
+		}
+		switch {
+		case cause < len(mal): // malformed request line, request body announced
+			fr.WriteHeaders(HeadersFrameParam{StreamID: s, BlockFragment: block(mal[cause].hdrs(path(s))), EndStream: false, EndHeaders: true})
+		case cause == len(mal): // priority: the stream depends on itself
+			fr.WriteHeaders(HeadersFrameParam{StreamID: s, BlockFragment: block(vfSrvBase("POST", path(s))), EndStream: false, EndHeaders: true,
+				Priority: PriorityParam{StreamDep: s, Weight: 7}})
+		case cause == len(mal)+1: // DATA beyond the declared Content-Length
+			fr.WriteHeaders(HeadersFrameParam{StreamID: s, BlockFragment: block(vfSrvBase("POST", path(s), "content-length", "5")), EndStream: false, EndHeaders: true})
+			fr.WriteData(s, false, make([]byte, 10))
+		case cause == len(mal)+2: // stream-level flow-control violation (the stream window is 100 bytes)
+			fr.WriteHeaders(HeadersFrameParam{StreamID: s, BlockFragment: block(vfSrvBase("POST", path(s))), EndStream: false, EndHeaders: true})
+			fr.WriteData(s, false, make([]byte, 300))
+		case cause == len(mal)+3: // trailers with a pseudo-header
+			fr.WriteHeaders(HeadersFrameParam{StreamID: s, BlockFragment: block(vfSrvBase("POST", path(s), "trailer", "x-t")), EndStream: false, EndHeaders: true})
+			fr.WriteHeaders(HeadersFrameParam{StreamID: s, BlockFragment: block([]string{":path", "/x"}), EndStream: true, EndHeaders: true})
+		default: // trailers without END_STREAM
+			fr.WriteHeaders(HeadersFrameParam{StreamID: s, BlockFragment: block(vfSrvBase("POST", path(s))), EndStream: false, EndHeaders: true})
+			fr.WriteHeaders(HeadersFrameParam{StreamID: s, BlockFragment: block([]string{"x-t", "1"}), EndStream: false, EndHeaders: true})
+		}
+		// more frames for the stream whose RST_STREAM is still queued
+		for k := 1 + rnd.Intn(4); k > 0; k-- {
+			switch rnd.Intn(8) {
+			case 0:
+				fr.WriteData(s, false, make([]byte, 1+rnd.Intn(40)))
+			case 1:
+				fr.WriteData(s, true, make([]byte, rnd.Intn(40)))
+			case 2:
+				fr.WriteData(s, false, nil)
+			case 3:
+				fr.WriteHeaders(HeadersFrameParam{StreamID: s, BlockFragment: block([]string{"x-trailer", "v"}), EndStream: true, EndHeaders: true})
+			case 4:
+				fr.WriteWindowUpdate(s, uint32(1+rnd.Intn(1000)))
+			case 5:
+				fr.WriteRSTStream(s, ErrCodeCancel)
+			case 6:
+				fr.WritePriority(s, PriorityParam{StreamDep: 0, Weight: uint8(rnd.Intn(256))})
+			case 7:
+				fr.WriteDataPadded(s, false, make([]byte, 3), make([]byte, 5))
+			}
+		}
+	}
+	// valid traffic on other streams
+	fr.WriteHeaders(HeadersFrameParam{StreamID: id, BlockFragment: block(vfSrvBase("GET", path(id))), EndStream: true, EndHeaders: true})
+	fr.WritePing(false, [8]byte{2, 7, 1, 8, 2, 8, 1, byte(tn)})
+	return a, append([]byte(nil), buf.Bytes()...)
+}
+
 // vfSrvInSync reports whether a client byte stream ends on a frame boundary and outside a header
 // block, i.e. whether one more frame written by the client would be read as a frame at all.
 func vfSrvInSync(b []byte) bool {
@@ -1087,14 +1180,17 @@ func vfSrvHostile(tb testing.TB, env *vfEnv, tn int, rnd *rand.Rand) {
 	adv := 1 + rnd.Intn(3)
 	idle := []time.Duration{0, 0, 3 * time.Second, 30 * time.Second}[rnd.Intn(4)]
 	readIdle := []time.Duration{0, 0, 5 * time.Second}[rnd.Intn(3)]
+	mode := []string{"mutate", "mutate", "random", "random-nopreface", "flood", "flood", "continuation", "mutate-noread",
+		"hdrblock", "hdrblock", "unknown-pos", "blocked-reset", "blocked-reset"}[rnd.Intn(13)]
 	d := vfSrvNew(tb, env, tn, adv, 65535, func(s *Server) {
 		s.IdleTimeout = idle
 		s.ReadIdleTimeout = readIdle
 		s.PingTimeout = 2 * time.Second
+		if mode == "blocked-reset" {
+			s.MaxUploadBufferPerStream = 100 // a stream-level flow-control violation needs only a few bytes
+		}
 	})
 	defer d.teardown()
-	mode := []string{"mutate", "mutate", "random", "random-nopreface", "flood", "flood", "continuation", "mutate-noread",
-		"hdrblock", "hdrblock", "unknown-pos"}[rnd.Intn(11)]
 	d.emit(map[string]any{"e": "hdr", "adv": adv, "maxq": VfSrvMaxQueuedControlFrames, "mode": mode,
 		"idle_ms": int(idle / time.Millisecond), "readidle_ms": int(readIdle / time.Millisecond)})
 
@@ -1149,11 +1245,16 @@ func vfSrvHostile(tb testing.TB, env *vfEnv, tn int, rnd *rand.Rand) {
 		d.emit(map[string]any{"e": "out", "frames": nf, "goaway": last})
 	}
 
-	noRead := mode == "flood" || mode == "mutate-noread" || (mode == "continuation" && rnd.Intn(2) == 0)
+	noRead := mode == "flood" || mode == "mutate-noread" || mode == "blocked-reset" || (mode == "continuation" && rnd.Intn(2) == 0)
+	// blocked-reset: the client reads nothing from the very start, or stops reading after its first frames
+	fromStart := mode == "blocked-reset" && rnd.Intn(2) == 0
+	if fromStart {
+		d.nc.SetReadBufferSize(0)
+	}
 	if mode != "random-nopreface" {
 		send("preface", []byte(ClientPreface))
 	}
-	if noRead {
+	if noRead && mode != "blocked-reset" {
 		d.nc.SetReadBufferSize(0)
 	}
 	switch mode {
@@ -1194,6 +1295,14 @@ func vfSrvHostile(tb testing.TB, env *vfEnv, tn int, rnd *rand.Rand) {
 			sent += n
 			quiesce()
 		}
+	case "blocked-reset":
+		a, b := vfSrvBlockedReset(rnd, tn)
+		send("session-start", a)
+		quiesce()
+		if !fromStart {
+			d.nc.SetReadBufferSize(0)
+		}
+		send("stream-error-while-writer-blocked", b)
 	case "hdrblock":
 		send("interrupted-header-block", vfSrvInterrupted(rnd, tn))
 	case "unknown-pos":
